@@ -7,6 +7,7 @@ import (
 	"fmt"
 	"go/types"
 	"net"
+	"net/netip"
 	"strconv"
 	"strings"
 
@@ -269,6 +270,9 @@ func init() {
 		},
 		"net.SplitHostPort": inSplitHostPort,
 		"(net/netip.Addr).String": func(r *Run, fr *frame, a []Value) Value {
+			if s, ok := r.concreteAddrString(a[0]); ok {
+				return mkStr(s) // fully concrete address: its real textual form
+			}
 			return r.opaqueStrArgs("addr", a[0])
 		},
 		"net/netip.ParseAddr": inParseAddr,
@@ -912,14 +916,94 @@ func inSplitHostPort(r *Run, fr *frame, a []Value) Value {
 	return Tuple{mkStr(h), mkStr(p), Iface{}}
 }
 
+// concreteAddrString renders a netip.Addr value whose bits and kind are all concrete.
+func (r *Run) concreteAddrString(v Value) (string, bool) {
+	st, ok := v.(*Struct)
+	if !ok || len(st.f) != 2 {
+		return "", false
+	}
+	u, ok := st.f[0].(*Struct)
+	if !ok || len(u.f) != 2 {
+		return "", false
+	}
+	hi, ok1 := u.f[0].(*Term)
+	lo, ok2 := u.f[1].(*Term)
+	if !ok1 || !ok2 || !hi.IsConst() || !lo.IsConst() {
+		return "", false
+	}
+	h, ok := st.f[1].(*Struct)
+	if !ok || len(h.f) != 1 {
+		return "", false
+	}
+	zp, ok := h.f[0].(Ptr)
+	if !ok {
+		return "", false
+	}
+	if zp.slot == nil {
+		return netip.Addr{}.String(), true
+	}
+	d, ok := zp.slot.v.(*Struct)
+	if !ok || len(d.f) != 2 {
+		return "", false
+	}
+	is6, ok1 := d.f[0].(*Term)
+	zone, ok2 := d.f[1].(Str)
+	if !ok1 || !ok2 || !is6.IsConst() || zone.sym {
+		return "", false
+	}
+	if is6.IsFalse() {
+		x := uint32(lo.c)
+		return netip.AddrFrom4([4]byte{byte(x >> 24), byte(x >> 16), byte(x >> 8), byte(x)}).String(), true
+	}
+	var b [16]byte
+	for i := 0; i < 8; i++ {
+		b[i] = byte(hi.c >> uint(56-8*i))
+		b[8+i] = byte(lo.c >> uint(56-8*i))
+	}
+	ad := netip.AddrFrom16(b)
+	if zone.s != "" {
+		ad = ad.WithZone(zone.s)
+	}
+	return ad.String(), true
+}
+
+// parseAddrConcrete builds the netip.Addr value for a concrete textual address.
 func (r *Run) parseAddrConcrete(s string) (Value, bool) {
-	return nil, false
+	ad, err := netip.ParseAddr(s)
+	if err != nil {
+		return nil, false
+	}
+	c := r.ctx
+	var hi, lo uint64
+	var detail *Struct
+	if ad.Is4() {
+		b := ad.As4()
+		hi, lo = 0, 0xffff00000000|uint64(b[0])<<24|uint64(b[1])<<16|uint64(b[2])<<8|uint64(b[3])
+		detail = &Struct{f: []Value{c.F, mkStr("")}}
+	} else {
+		b := ad.As16()
+		for i := 0; i < 8; i++ {
+			hi = hi<<8 | uint64(b[i])
+			lo = lo<<8 | uint64(b[8+i])
+		}
+		detail = &Struct{f: []Value{c.T, mkStr(ad.Zone())}}
+	}
+	handle := inUniqueMake(r, nil, []Value{detail})
+	return &Struct{f: []Value{&Struct{f: []Value{c.Const(64, hi), c.Const(64, lo)}}, handle}}, true
 }
 
 func inParseAddr(r *Run, fr *frame, a []Value) Value {
 	s := a[0].(Str)
 	if s.sym && s.kind == "addr" {
 		return Tuple{s.args[0], Iface{}}
+	}
+	if !s.sym {
+		if v, ok := r.parseAddrConcrete(s.s); ok {
+			return Tuple{v, Iface{}}
+		}
+		t := r.namedType("errors", "errorString")
+		sl := r.newSlot(&Struct{f: []Value{mkStr("ParseAddr: unable to parse IP")}}, "parseErr")
+		return Tuple{r.zero(r.namedType("net/netip", "Addr")), Iface{t: types.NewPointer(t), v: Ptr{slot: sl}}}
 	}
 	r.unsupported("netip.ParseAddr of non-addr string")
 	return nil
